@@ -8,7 +8,7 @@
 package upstream
 
 import (
-	"io"
+	"encoding/base64"
 	"context"
 	"encoding/json"
 	"errors"
@@ -58,6 +58,9 @@ type vhlcCase struct {
 	// Front: real client listeners reach the server through a TCP front that the "blackout" / "restore" ops switch off and on,
 	// and each of them runs an accept loop (the reconnect logic of the client lives in Accept)
 	Front bool `json:"front"`
+	// ViaLoad: the verifier configuration goes through the real auth.Config.Load (what server.NewServer does) instead of a
+	// hand-built LoadedConfig: "hmac" (hmac_secret_key) or "jwks" (a file:// key set holding the same secret as an oct key)
+	ViaLoad string `json:"via_load"`
 	Ops    []vhlcOp `json:"ops"`
 }
 
@@ -138,6 +141,7 @@ type vhlcFront struct {
 	target  string
 	mu      sync.Mutex
 	blocked bool
+	hole    bool
 	conns   []net.Conn
 }
 
@@ -167,9 +171,35 @@ func (f *vhlcFront) serve() {
 			f.conns = append(f.conns, c, b)
 			f.mu.Unlock()
 			done := make(chan struct{}, 2)
-			go func() { _, _ = io.Copy(b, c); done <- struct{}{} }()
-			go func() { _, _ = io.Copy(c, b); done <- struct{}{} }()
+			pump := func(dst, src net.Conn) {
+				buf := make([]byte, 32768)
+				for {
+					n, err := src.Read(buf)
+					if n > 0 {
+						f.mu.Lock()
+						hole := f.hole
+						f.mu.Unlock()
+						if !hole { // a black hole swallows everything and closes nothing
+							if _, werr := dst.Write(buf[:n]); werr != nil {
+								break
+							}
+						}
+					}
+					if err != nil {
+						break
+					}
+				}
+				done <- struct{}{}
+			}
+			go pump(b, c)
+			go pump(c, b)
 			<-done
+			f.mu.Lock()
+			hole := f.hole
+			f.mu.Unlock()
+			if hole {
+				return // keep both sockets open: the path is silent, not closed
+			}
 			_ = c.Close()
 			_ = b.Close()
 		}(c)
@@ -195,10 +225,32 @@ func vhlcNewRig(c vhlcCase) (*vhlcRig, error) {
 	mgr := NewLoadBalancedManager(st, nil)
 	var verifier *auth.MultiTenantVerifier
 	if c.Auth {
-		jv := auth.NewJWTVerifier(&auth.LoadedConfig{
+		lc := &auth.LoadedConfig{
 			HMACSecretKey:             []byte(vhlcSecret),
 			DisableDisconnectOnExpiry: c.Disable,
-		})
+		}
+		if c.ViaLoad != "" {
+			ac := auth.Config{DisableDisconnectOnExpiry: c.Disable}
+			if c.ViaLoad == "jwks" {
+				f, err := os.CreateTemp("", "vhlc-jwks-*.json")
+				if err != nil {
+					return nil, err
+				}
+				k := base64.RawURLEncoding.EncodeToString([]byte(vhlcSecret))
+				_, _ = f.WriteString(`{"keys":[{"kty":"oct","kid":"k1","alg":"HS256","k":"` + k + `"}]}`)
+				_ = f.Close()
+				defer os.Remove(f.Name())
+				ac.JWKS.Endpoint = "file://" + f.Name()
+			} else {
+				ac.HMACSecretKey = vhlcSecret
+			}
+			loaded, err := ac.Load(context.Background())
+			if err != nil {
+				return nil, fmt.Errorf("auth config load: %w", err)
+			}
+			lc = loaded
+		}
+		jv := auth.NewJWTVerifier(lc)
 		if c.Tenant {
 			verifier = auth.NewMultiTenantVerifier(
 				auth.NewJWTVerifier(&auth.LoadedConfig{HMACSecretKey: []byte("another-secret-for-the-default")}),
@@ -288,7 +340,9 @@ func (r *vhlcRig) token(kind string, e string, exp time.Time) string {
 	if kind == "bad" {
 		key = []byte("vhlc-not-the-secret")
 	}
-	s, err := jwt.NewWithClaims(jwt.SigningMethodHS256, claims).SignedString(key)
+	tk := jwt.NewWithClaims(jwt.SigningMethodHS256, claims)
+	tk.Header["kid"] = "k1"
+	s, err := tk.SignedString(key)
 	if err != nil {
 		panic(err)
 	}
@@ -822,6 +876,28 @@ func (r *vhlcRig) apply(op vhlcOp) (ob vhlcObs) {
 			for _, id := range ob.Dropped {
 				r.setWant(id, false, false)
 			}
+		}
+		ob.Res = "ok"
+	case "blackhole":
+		// the network path of the clients behind the front goes silent: nothing is delivered in either direction any more and
+		// nothing is closed (a pulled cable, a dropped NAT mapping); only the server's own keep-alive probing can notice
+		if r.front != nil {
+			r.front.mu.Lock()
+			r.front.hole = true
+			r.front.mu.Unlock()
+			r.mu.Lock()
+			for _, id := range r.order {
+				if c := r.conns[id]; c != nil && c.real != nil && c.wantSess {
+					ob.Dropped = append(ob.Dropped, id)
+				}
+			}
+			r.mu.Unlock()
+		}
+		if op.Ms > 0 {
+			time.Sleep(time.Duration(op.Ms) * time.Millisecond)
+		}
+		for _, id := range ob.Dropped {
+			r.setWant(id, false, false)
 		}
 		ob.Res = "ok"
 	case "restore":
